@@ -408,8 +408,14 @@ def _two_alive():
         s.fop(v, "x", "mul", "2", via="view")
         s.op(op="getitem", v=u, idx=[{"i": 1}, {"i": 1}])
         s.op(op="getitem", v=v, idx=[{"i": 1}, {"i": 1}])
-        s.getitem_vec(u, [{"i": 1}])
-        s.getitem_vec(v, [{"i": 1}])
+        su = s.getitem_vec(u, [{"i": 1}])           # slices share the cells of their source
+        sv = s.getitem_vec(v, [{"s": [None, None, -1]}, {"i": 0}])
+        s.fop(su, "x", "add", "3", via="item")      # in-place through the slice: the source's field must follow
+        s.vflat(fu)
+        s.fop(sv, "y", "mul", "2", via="view")
+        s.op(op="view_make", v=v, f="y")
+        s.nview += 1
+        s.vflat(s.nview - 1)
         s.copy(u)
         s.op(op="setitem", v=u, idx=[{"i": 0}, {"i": 1}], val={"one": s.alloc(2 + rnd, 3, base=30 + rnd)})
         s.op(op="add_fields", v=u, names=["z" + str(rnd)], as_str=True, as_tuple=False)
